@@ -289,7 +289,7 @@ def _main(args, prop, seed, t0, workdir):
       if s.nondeterministic:
         unreproduced += 1
         print(f'WARNING property={prop} scenario={sc}: a failure ({v["kind"]}) did not reproduce in {tries} reruns; '
-              f'counted as inconclusive')
+              f'counted as inconclusive: {v["msg"][:700]}')
         continue
       print(f'HARNESS-ERROR property={prop} scenario={sc}: failure does not reproduce from its case description: '
             f'{v["kind"]}: {v["msg"][:500]}')
